@@ -29,6 +29,7 @@ try:
             rc, out = run(["go", "test", "-vet=off", "-count=1", "-run", "^(" + "|".join(names) + ")$", "./" + a.pkgdir], timeout=3000)
             os.remove(dst)
         else:
+            os.makedirs(os.path.join(wt, "_seed"), exist_ok=True)  # some demo programs keep their scratch files under ./_seed
             dst = os.path.join(wt, "zz_seed_demo_verif"); os.makedirs(dst, exist_ok=True)
             shutil.copyfile(demo_src, os.path.join(dst, "main.go"))
             rc, out = run(["go", "run", "./zz_seed_demo_verif"], timeout=3000)
